@@ -161,6 +161,23 @@ template <int L1, int L2> std::string run_conv(const std::vector<u64> & sz, bool
   field<B2> dst2(std::move(src2));                        // the moving conversion
   bool mv = raw(dst2.backend().get_backend()) == raw(dst.backend().get_backend()) && sizes_eq(dst2.backend().get_configuration(), sz);
   u64 mvbad = lattice_diff(orig, dst2, sz, true);
+  if constexpr (L1 == 0) {
+    // the same conversion from a row-major field whose (caller-supplied) array is LARGER than the lattice: the slack cells hold a
+    // sentinel and must not reach the target's lattice
+    u64 total = 1; for (auto s_ : sz) total *= s_;
+    typename SA::configuration_t scfg; for (std::size_t k = 0; k < N; ++k) scfg[k] = sz[k];
+    field<SA> big(make_parameter_pack(std::move(scfg), typename A::configuration_t{total + 5}));
+    { typename field<SA>::view_t v(big);
+      forall(sz, [&](const std::vector<u64> & c, u64 k) { auto cc = mk<typename field<SA>::coordinate_t>(c); for (std::size_t q = 0; q < M; ++q) v.at(cc)[q] = expected(k, q); });
+      typename A::non_owning_data_t av(big.backend().get_backend());
+      for (u64 i = 0; i < 5; ++i) for (std::size_t q = 0; q < M; ++q) av.at(total + i)[q] = static_cast<T>(7777); }
+    field<B2> dbig(big);
+    u64 wrong = lattice_diff(orig, dbig, sz, true);
+    if (wrong != 0 || !sizes_eq(dbig.backend().get_configuration(), sz)) {
+      std::cerr << "Assertion `conversion of a row-major field whose array is larger than its lattice' failed: " << wrong << " lattice coordinates differ" << std::endl;
+      std::abort();
+    }
+  }
   std::ostringstream os;
   os << "ok " << show(decode(src.backend().get_backend()), full) << " ; " << show(decode(dst.backend().get_backend()), full) << " ; "
      << show(decode(back.backend().get_backend()), full) << " | cfg";
